@@ -594,15 +594,27 @@ def parse_equation(equation: str) -> List[Symbol]:
     # Extract the terms from the equation
     terms = parse_equation_terms(equation)
 
-    # Construct standardised and code representations of the equation
-    template = equation
-    for match in reversed(list(term_re.finditer(equation))):
+    # Construct standardised and code representations of the equation,
+    # escaping any braces outside the terms themselves (to pass through
+    # `str.format()` unchanged)
+    def escape_braces(text: str) -> str:
+        return text.replace('{', '{{').replace('}', '}}')
+
+    pieces: List[str] = []
+    position = 0
+
+    for match in term_re.finditer(equation):
         # Skip Python keywords, which yield unnamed groups
         if not any(match.groups()):
             continue
 
         start, end = match.span()
-        template = f'{template[:start]}{{}}{template[end:]}'
+        pieces.append(escape_braces(equation[position:start]))
+        pieces.append('{}')
+        position = end
+
+    pieces.append(escape_braces(equation[position:]))
+    template = ''.join(pieces)
 
     # fmt: off
     template = re.sub(r'\s+',   ' ', template)  # Remove repeated whitespace
